@@ -18,6 +18,7 @@
 Not decided: numeric equality with the explicit joint; the pickle round trip of the attribute values themselves (trusted).
 """
 import ast
+import re
 
 from . import _logrules as LR
 from ..engines.logspace import TOTALNORM
@@ -47,6 +48,7 @@ def run(ctx):
     check_project(ctx, repo.nfunc(GM, 'GraphicalModel.project'))
     check_queries_pure(ctx)
     check_many(ctx, repo.nfunc(GM, 'GraphicalModel.calculate_many_marginals'))
+    check_conditionals(ctx, repo.nfunc(GM, 'GraphicalModel.calculate_many_marginals'))
     check_pair_schedule(ctx, repo.nfunc(GM, 'GraphicalModel.calculate_many_marginals'))
     check_datavector(ctx, repo.nfunc(GM, 'GraphicalModel.datavector'))
     check_krondot(ctx, repo.nfunc(GM, 'GraphicalModel.krondot'))
@@ -363,6 +365,69 @@ def check_many(ctx, fi):
     ok = any(isinstance(x, ast.If) and isinstance(getattr(x, '_parent', None), ast.For) and isinstance(x._parent.target, ast.Name)
              and is_subset_test(unfolded(x.test), p, x._parent.target.id) for x in ast.walk(loops[0]))
     ctx.ob('requested-order', fi, loops[0], ok, 'a pairwise joint answers only requests it contains')
+
+
+def check_conditionals(ctx, fi):
+    """calculate_many_marginals chains P(Ci, Cl) * P(Cj | Cl) along the tree: every entry of the table of conditionals is the clique marginal
+    DIVIDED by its own projection onto the separator, `Z / Z.project(S)`.  With an empty separator the projection is the 0-dimensional table
+    holding the total, so `Z / self.total` is the same thing (the marginals sum to self.total: C01); the bare `Z` is a table of counts, and
+    every answer served through that edge comes out `total` times too large."""
+    src = getattr(fi, 'original', fi)
+    stores = []
+    # the table: filled under a pair key inside `for Ci in N: for Cj in N[Ci]:` (the loop over tree neighbours)
+    tables = set()
+    for o_ in ast.walk(src.node):
+        if isinstance(o_, ast.For) and isinstance(o_.target, ast.Name):
+            for i_ in o_.body:
+                if isinstance(i_, ast.For) and isinstance(i_.iter, ast.Subscript) and U(i_.iter.slice) == o_.target.id and U(i_.iter.value) == U(o_.iter):
+                    for a_ in ast.walk(i_):
+                        if isinstance(a_, ast.Assign) and len(a_.targets) == 1 and isinstance(a_.targets[0], ast.Subscript) and isinstance(a_.targets[0].value, ast.Name) \
+                                and isinstance(a_.targets[0].slice, ast.Tuple) and len(a_.targets[0].slice.elts) == 2:
+                            tables.add(a_.targets[0].value.id)
+
+    def walk(block, guards):
+        for st in block:
+            if isinstance(st, ast.Assign) and len(st.targets) == 1 and isinstance(st.targets[0], ast.Subscript) and isinstance(st.targets[0].value, ast.Name) \
+                    and st.targets[0].value.id in tables:
+                stores.append((st, list(guards)))
+            elif isinstance(st, ast.If):
+                walk(st.body, guards + [(st.test, True)])
+                walk(st.orelse, guards + [(st.test, False)])
+            elif isinstance(st, (ast.For, ast.While, ast.With, ast.Try)):
+                walk(st.body, guards)
+    walk(src.node.body, [])
+    if not stores:
+        raise AnalysisError('calculate_many_marginals: the table of conditionals was not found')
+    defs = {}
+    for a in ast.walk(src.node):
+        if isinstance(a, ast.Assign) and len(a.targets) == 1 and isinstance(a.targets[0], ast.Name):
+            defs.setdefault(a.targets[0].id, []).append(a.value)
+    for st, guards in stores:
+        v = st.value
+        t = U(v).replace(' ', '')
+        m = re.fullmatch(r'(\w+)/\1\.project\((\w+)\)', t)
+        if m:
+            zdef = defs.get(m.group(1), [])
+            ok = len(zdef) == 1 and U(zdef[0]).replace(' ', '').startswith('self.marginals[')
+            ctx.ob('conditional-form', fi, st, ok, 'P(clique | separator) = Z / Z.project(S) with Z the cached clique marginal; `%s`' % U(v)[:80])
+            continue
+        empty = None
+        for g, pol in guards:
+            gt = U(g).replace(' ', '')
+            mm = re.fullmatch(r'len\((\w+)\)==0', gt) or re.fullmatch(r'not(\w+)', gt)
+            if mm and pol:
+                empty = mm.group(1)
+            mm2 = re.fullmatch(r'len\((\w+)\)(>0|!=0|>=1)', gt) or re.fullmatch(r'(\w+)', gt)
+            if mm2 and not pol:
+                empty = mm2.group(1)
+        m2 = re.fullmatch(r'(\w+)/self\.total', t)
+        if empty is not None and m2:
+            ctx.ob('conditional-form', fi, st, True, 'empty separator `%s`: Z.project(()) is the total, so `%s` is Z / Z.project(S)' % (empty, U(v)))
+        elif empty is not None and re.fullmatch(r'\w+', t):
+            ctx.ob('conditional-form', fi, st, False, 'empty separator `%s`: the conditional is stored as the bare marginal `%s` - a table of COUNTS summing to '
+                   'self.total, not of probabilities; every answer chained through this edge is `total` times too large' % (empty, U(v)))
+        else:
+            raise AnalysisError('calculate_many_marginals: conditional stored as `%s`, which is in no recognised form' % U(v)[:80])
 
 
 def check_pair_schedule(ctx, fi):
